@@ -116,6 +116,22 @@ func frontEnds() []fe {
 	}
 }
 
+// msgKinds: the final message is ordinary, blank (the std-log bridge trims to nothing), or larger
+// than the buffered sink's buffer (bufio then bypasses the buffer).
+var msgKinds = []string{"normal", "blank", "space", "large"}
+
+func mkMsg(kind string, tag string) string {
+	switch kind {
+	case "blank":
+		return ""
+	case "space":
+		return " "
+	case "large":
+		return tag + "-" + strings.Repeat("L", 6000)
+	}
+	return tag
+}
+
 // coreKinds are the compositions a case is run over.
 var coreKinds = []string{"json", "nop", "level-above-fatal", "sampler-drops-all", "tee-with-disabled-branch", "lazy", "increase-level", "buffered-sink", "observer+json"}
 
@@ -185,7 +201,7 @@ func snap(b built) snapshot {
 // written checks that, in this snapshot, every accepting destination has the entry and IO sinks were synced after it.
 func (sn snapshot) written(b built, msg string) string {
 	for i := range b.sinks {
-		if !strings.Contains(sn.lines[i], msg) {
+		if !strings.Contains(sn.lines[i], strings.TrimSpace(msg)) || !strings.Contains(sn.events[i], "W") {
 			return fmt.Sprintf("when control was lost, an accepting IO core had not received the entry (sink events %q)", sn.events[i])
 		}
 		if !strings.HasSuffix(sn.events[i], "WS") {
@@ -252,6 +268,7 @@ func inProcess(r *ev.Run) {
 		core string
 		hook string
 		dev  bool
+		msg  string
 	}
 	var cells []cell
 	for _, f := range fes {
@@ -259,7 +276,9 @@ func inProcess(r *ev.Run) {
 			for _, ck := range coreKinds {
 				for _, hk := range hookKinds {
 					for _, dev := range []bool{false, true} {
-						cells = append(cells, cell{f, lvl, ck, hk, dev})
+						for _, mk := range msgKinds {
+							cells = append(cells, cell{f, lvl, ck, hk, dev, mk})
+						}
 					}
 				}
 			}
@@ -305,17 +324,18 @@ func inProcess(r *ev.Run) {
 			opts = append(opts, zap.WithPanicHook(hk), zap.WithFatalHook(hk))
 		}
 		lg := zap.New(b.core, opts...)
-		msg := fmt.Sprintf("final-%d", ci)
+		msg := mkMsg(c.msg, fmt.Sprintf("final-%d", ci))
 		o := runCall(func() { c.fe.call(lg, c.lvl, msg) })
+		r.SetAdd("message_kinds", c.msg)
 		r.Eval(1)
 		r.SetAdd("front_ends", c.fe.name)
-		r.Distinct(fmt.Sprintf("%s|%v|%s|%s|%v", c.fe.name, c.lvl, c.core, c.hook, c.dev))
+		r.Distinct(fmt.Sprintf("%s|%v|%s|%s|%v|%s", c.fe.name, c.lvl, c.core, c.hook, c.dev, c.msg))
 		if len(pick) < 5 || ci%977 == 0 {
 			r.Sample(map[string]any{"front_end": c.fe.name, "level": c.lvl.String(), "core": c.core, "hook": c.hook, "development": c.dev})
 		}
-		wit := map[string]any{"front_end": c.fe.name, "level": c.lvl.String(), "core": c.core, "hook": c.hook, "development": c.dev, "outcome": fmt.Sprintf("%+v", o)}
+		wit := map[string]any{"front_end": c.fe.name, "level": c.lvl.String(), "core": c.core, "hook": c.hook, "development": c.dev, "message_kind": c.msg, "outcome": fmt.Sprintf("%+v", o)}
 		bad := func(class, f string, a ...any) {
-			r.Violate(ev.Violation{Case: id, Class: class, Msg: fmt.Sprintf("%s at %v, core=%s hook=%s development=%v: ", c.fe.name, c.lvl, c.core, c.hook, c.dev) + fmt.Sprintf(f, a...), Witness: wit})
+			r.Violate(ev.Violation{Case: id, Class: class, Msg: fmt.Sprintf("%s at %v, core=%s hook=%s development=%v message=%s: ", c.fe.name, c.lvl, c.core, c.hook, c.dev, c.msg) + fmt.Sprintf(f, a...), Witness: wit})
 		}
 		if !o.continued && !o.panicked && !o.goexit {
 			r.Inconclusive(id + ": the call neither returned nor terminated within 30s")
@@ -360,8 +380,8 @@ func inProcess(r *ev.Run) {
 				bad("wrong-action", "the panic action must run (a panic carrying the message), outcome %+v", o)
 				continue
 			}
-			if !strings.Contains(o.panicVal, msg) {
-				bad("wrong-action", "the panic does not carry the message: %q", o.panicVal)
+			if !strings.Contains(o.panicVal, strings.TrimSpace(msg)) {
+				bad("wrong-action", "the panic does not carry the message: %q", clipS(o.panicVal))
 				continue
 			}
 		case "goexit":
@@ -414,6 +434,10 @@ func fatalChild(args []string) {
 	core := args[2]
 	hook := args[3]
 	dir := args[4]
+	mkind := "normal"
+	if len(args) > 5 {
+		mkind = args[5]
+	}
 	f, _ := os.OpenFile(filepath.Join(dir, "data"), os.O_CREATE|os.O_WRONLY|os.O_TRUNC, 0o644)
 	side, _ := os.OpenFile(filepath.Join(dir, "side"), os.O_CREATE|os.O_WRONLY|os.O_TRUNC|os.O_APPEND, 0o644)
 	b := buildCore(core, func(*rec.Sink) zapcore.WriteSyncer { return evSink{f, side} })
@@ -428,7 +452,7 @@ func fatalChild(args []string) {
 	}
 	lg := zap.New(b.core, opts...)
 	fe := frontEnds()[feIdx]
-	fe.call(lg, zapcore.FatalLevel, "fatal-final-message")
+	fe.call(lg, zapcore.FatalLevel, mkMsg(mkind, "fatal-final-message"))
 	// reaching this line means the process survived the Fatal call
 	_ = os.WriteFile(filepath.Join(dir, "sentinel"), []byte("survived"), 0o644)
 	os.Exit(0)
@@ -444,12 +468,15 @@ func outOfProcess(r *ev.Run) {
 		fe   int
 		core string
 		hook string
+		msg  string
 	}
 	var cells []cell
 	for i := range fes {
 		for _, ck := range coreKinds {
 			for _, hk := range []string{"unset", "nil", "WriteThenNoop", "OnFatal(WriteThenNoop)"} {
-				cells = append(cells, cell{i, ck, hk})
+				for _, mk := range []string{"normal", "blank", "large"} {
+					cells = append(cells, cell{i, ck, hk, mk})
+				}
 			}
 		}
 	}
@@ -457,7 +484,7 @@ func outOfProcess(r *ev.Run) {
 	g := rng.For(r.Seed, "c06/children", 0)
 	order := g.Perm(len(cells))
 	if !r.Thorough() {
-		order = order[:250]
+		order = order[:300]
 	}
 	for _, ci := range order {
 		c := cells[ci]
@@ -467,15 +494,15 @@ func outOfProcess(r *ev.Run) {
 		}
 		dir := filepath.Join(ev.WorkDir(), fmt.Sprintf("c06-%d", ci))
 		_ = os.MkdirAll(dir, 0o755)
-		oc := mon.RunRaw(bin, []string{"child", "C06", "fatal", fmt.Sprint(c.fe), c.core, c.hook, dir, "-"}, 60*time.Second)
+		oc := mon.RunRaw(bin, []string{"child", "C06", "fatal", fmt.Sprint(c.fe), c.core, c.hook, dir, c.msg, "-"}, 60*time.Second)
 		r.Eval(1)
 		r.Count("children", 1)
 		r.SetAdd("exit_statuses", fmt.Sprint(oc.ExitCode))
 		r.SetAdd("front_ends", fes[c.fe].name)
-		r.Distinct(fmt.Sprintf("child|%s|%s|%s", fes[c.fe].name, c.core, c.hook))
+		r.Distinct(fmt.Sprintf("child|%s|%s|%s|%s", fes[c.fe].name, c.core, c.hook, c.msg))
 		bad := func(class, f string, a ...any) {
-			r.Violate(ev.Violation{Case: id, Class: class, Msg: fmt.Sprintf("%s at fatal, core=%s fatal-hook=%s (real process): ", fes[c.fe].name, c.core, c.hook) + fmt.Sprintf(f, a...),
-				Witness: map[string]any{"front_end": fes[c.fe].name, "core": c.core, "hook": c.hook, "exit": oc.ExitCode}})
+			r.Violate(ev.Violation{Case: id, Class: class, Msg: fmt.Sprintf("%s at fatal, core=%s fatal-hook=%s message=%s (real process): ", fes[c.fe].name, c.core, c.hook, c.msg) + fmt.Sprintf(f, a...),
+				Witness: map[string]any{"front_end": fes[c.fe].name, "core": c.core, "hook": c.hook, "message_kind": c.msg, "exit": oc.ExitCode}})
 		}
 		_, serr := os.Stat(filepath.Join(dir, "sentinel"))
 		data, _ := os.ReadFile(filepath.Join(dir, "data"))
@@ -499,8 +526,9 @@ func outOfProcess(r *ev.Run) {
 			continue
 		}
 		if enabled {
-			if !strings.HasSuffix(string(data), "\n") || !strings.Contains(string(data), "fatal-final-message") {
-				bad("lost-before-termination", "the file lacks the complete final line: %q", data)
+			wantMsg := mkMsg(c.msg, "fatal-final-message")
+			if !strings.HasSuffix(string(data), "\n") || !strings.Contains(string(data), wantMsg) || !strings.Contains(string(data), `"level":"fatal"`) {
+				bad("lost-before-termination", "the file lacks the complete final line: %q", clipS(string(data)))
 				continue
 			}
 			if !strings.HasSuffix(strings.TrimSpace(string(side)), "S") || !strings.Contains(string(side), "W") {
@@ -514,6 +542,13 @@ func outOfProcess(r *ev.Run) {
 	}
 }
 
+func clipS(s string) string {
+	if len(s) > 300 {
+		return s[:150] + " ... " + s[len(s)-100:]
+	}
+	return s
+}
+
 // Child is the out-of-process entry point.
 func Child(r *ev.Run, args []string) {
 	if len(args) > 0 && args[0] == "fatal" {
@@ -523,7 +558,7 @@ func Child(r *ev.Run, args []string) {
 
 // Run is the C06 monitor.
 func Run(r *ev.Run) {
-	r.Rule = "in-process: the product {16 front ends} x {DPanic, Panic, Fatal} x {9 core compositions incl. nop, disabled, sampled-out, tee, lazy, increase-level, buffered sink} x {hook unset, nil, WriteThenNoop, WriteThenGoexit, WriteThenPanic, custom} x {development on/off} (sampled by seed in quick, enumerated in thorough); each call runs in its own goroutine and the outcome (returned / panicked with value / goroutine exited / custom hook ran) plus sink snapshots taken at the moment control is lost are judged; out-of-process: the real default Fatal action, one child process per (front end, core, hook in {unset, nil, WriteThenNoop}) observed by exit status, a sentinel file, the data file and a W/S event side file; distinct = distinct cells"
+	r.Rule = "in-process: the product {16 front ends} x {DPanic, Panic, Fatal} x {9 core compositions incl. nop, disabled, sampled-out, tee, lazy, increase-level, buffered sink} x {hook unset, nil, WriteThenNoop, WriteThenGoexit, WriteThenPanic, custom} x {development on/off} x {message ordinary, empty, blank, larger than the sink buffer} (sampled by seed in quick, enumerated in thorough); each call runs in its own goroutine and the outcome (returned / panicked with value / goroutine exited / custom hook ran) plus sink snapshots taken at the moment control is lost are judged; out-of-process: the real default Fatal action, one child process per (front end, core, hook in {unset, nil, WriteThenNoop, OnFatal(WriteThenNoop)}, message kind) observed by exit status, a sentinel file, the data file and a W/S event side file; distinct = distinct cells"
 	inProcess(r)
 	if r.Only == "" {
 		outOfProcess(r)
